@@ -189,8 +189,10 @@ class MindsDBParser(Parser):
         if 'database' not in params:
             raise ParsingException("CREATE CHATBOT requires the 'database' parameter")
         for key in ('database', 'model', 'agent'):
-            value = params.get(key)
-            if value is not None and (not isinstance(value, str) or value == ''):
+            if key not in params or (key != 'database' and params[key] is None):
+                continue
+            value = params[key]
+            if not isinstance(value, str) or value == '':
                 raise ParsingException(f"CREATE CHATBOT parameter '{key}' must be a non-empty string, got: {value}")
 
         database = Identifier(params.pop('database'))
